@@ -575,6 +575,8 @@ class CSVWriter extends rbql.RBQLOutputWriter {
         if (fields.length > 1) {
             throw new RbqlIOHandlingError('Unable to use "Monocolumn" output format: some records have more than one field');
         }
+        if (fields.length == 1)
+            return String(fields[0]); // A number or a boolean (e.g. select NR) is written as text, like under the other policies
         return fields[0];
     };
 
